@@ -8,7 +8,9 @@ Import ListNotations RecordSetNotations.
 Definition at_ (u : bool) (np : N) (s : vst) (l : list N) : Prop :=
   skipn (pos s) (units (rd s)) = l /\ strict s = u /\ uflag s = u /\ nflag s = u /\ ncap s = np.
 (* the part of in_fragment the simulation depends on *)
-Definition frag (u : bool) (l : list N) : Prop := scan u false l = true.
+Definition frag (u : bool) (l : list N) : Prop := scan u false false l = true.
+(* inside a class, at an atom boundary *)
+Definition cfrag (u : bool) (l : list N) : Prop := scan u true false l = true.
 (* a fact kept aside in its original form *)
 Definition keep (P : Prop) : Prop := P.
 Definition cfgeq (s t : vst) : Prop :=
@@ -17,9 +19,11 @@ Definition cfgeq (s t : vst) : Prop :=
 Definition Post {A} (u : bool) (np : N) (s : vst) (_ : A) (t : vst) (l' : list N) : Prop :=
   at_ u np t l' /\ frag u l' /\ cfgeq s t.
 (* the validator is at the unit after a backslash: the escaped state of the scan *)
-Definition efrag (u : bool) (l : list N) : Prop := scan u true l = true.
-Definition PostE (u : bool) (np : N) (s : vst) (b : bool) (t : vst) (l' : list N) : Prop :=
-  at_ u np t l' /\ cfgeq s t /\ (b = true -> frag u l').
+Definition efrag (u cls : bool) (l : list N) : Prop := scan u cls true l = true.
+(* vp: what is known about last_int_value after a success (the CharacterValue of the escape) *)
+Definition PostE (u cls : bool) (np : N) (vp : Z -> Prop) (s : vst) (b : bool) (t : vst) (l' : list N) : Prop :=
+  at_ u np t l' /\ cfgeq s t /\ (b = true -> scan u cls false l' = true /\ vp (liv t)).
+Definition anyv (_ : Z) : Prop := True.
 Definition SimR {A} (P : A -> vst -> list N -> Prop) (r : R A) (x : SR A) : Prop :=
   match r, x with
   | Ok a t, SOk a' l' => a = a' /\ P a t l'
@@ -29,6 +33,20 @@ Definition SimR {A} (P : A -> vst -> list N -> Prop) (r : R A) (x : SR A) : Prop
   end.
 Definition SimP (P : bool -> vst -> list N -> Prop) (r : R bool) (p : bool * list N) : Prop :=
   match r with Ok a t => a = fst p /\ P a t (snd p) | _ => False end.
+(* class atoms: the model answers a boolean and leaves the CharacterValue (-1 for a class) in last_int_value *)
+Definition enc (ov : option N) : Z := match ov with Some v => Z.of_N v | None => (-1)%Z end.
+Definition is_some {A} (o : option A) : bool := match o with Some _ => true | None => false end.
+Definition SimC (P : bool -> vst -> list N -> Prop) (r : R bool) (x : SR (option (option N))) : Prop :=
+  match r, x with
+  | Ok b t, SOk oov l' => b = is_some oov /\ P b t l' /\ match oov with Some ov => liv t = enc ov | None => True end
+  | SyntaxErr _ _, SErr => True
+  | OutOfFuel, SFuel => True
+  | _, _ => False
+  end.
+Definition PostC (u : bool) (np : N) (s : vst) (b : bool) (t : vst) (l' : list N) : Prop :=
+  at_ u np t l' /\ cfgeq s t /\ (b = true -> cfrag u l').
+Definition PostR (u : bool) (np : N) (s : vst) (_ : unit) (t : vst) (l' : list N) : Prop :=
+  at_ u np t l' /\ cfrag u l' /\ cfgeq s t.
 (* a model function that cannot fail against a recogniser piece that cannot fail *)
 Definition SimB (P : bool -> vst -> list N -> Prop) (p : bool * vst) (x : bool * list N) : Prop :=
   fst p = fst x /\ P (fst p) (snd p) (snd x).
@@ -60,7 +78,7 @@ Definition assertion_prefix (l : list N) : bool :=
   end.
 Lemma sp_group_body_not_false sdisj l r : sp_group_body sdisj l <> SOk false r.
 Proof. unfold sp_group_body. destruct (sdisj l) as [[] [|c r0]| |]; try discriminate. destruct (c =? g_rparen); discriminate. Qed.
-Lemma sp_assertion_false_prefix u sdisj l r : sp_assertion sdisj l = SOk false r -> scan u false l = true -> assertion_prefix l = false.
+Lemma sp_assertion_false_prefix u sdisj l r : sp_assertion sdisj l = SOk false r -> scan u false false l = true -> assertion_prefix l = false.
 Proof.
   destruct l as [|c0 [|c1 l1]]; try reflexivity. cbn [sp_assertion assertion_prefix].
   destruct (N.eqb_spec c0 g_caret) as [->|_]; [discriminate|]. destruct (N.eqb_spec c0 g_dollar) as [->|_]; [discriminate|].
@@ -135,6 +153,10 @@ Proof.
   destruct (sp_backref true np l) as [[|] r0| |]; try discriminate.
   destruct (sp_cce l) as [[|] r1| |]; try discriminate. destruct (sp_ce true l) as [[|] r2| |]; discriminate.
 Qed.
+Lemma sp_class_false_eq u l r : sp_class u l = SOk false r -> r = l /\ starts_with g_lbracket l = false.
+Proof. intros H. apply sp_class_sound in H. destruct H as [[H _]|[_ H]]; [discriminate|exact H]. Qed.
+Lemma sp_class_not_lb u c r : (c =? 91)%N = false -> sp_class u (c :: r) = SOk false (c :: r).
+Proof. intros H. cbn [sp_class]. unfold g_lbracket. rewrite H. reflexivity. Qed.
 Lemma sp_brq_nil u ne : sp_brq u ne [] = SOk false [].
 Proof. unfold sp_brq. cbn [sp_braced starts_with]. rewrite andb_false_r. reflexivity. Qed.
 
@@ -151,7 +173,10 @@ Ltac prim :=
 Ltac unfold_hyps :=
   repeat match goal with
          | H : Post _ _ _ _ _ _ |- _ => unfold Post in H
-         | H : PostE _ _ _ _ _ _ |- _ => unfold PostE in H
+         | H : PostE _ _ _ _ _ _ _ _ |- _ => unfold PostE in H
+         | H : PostC _ _ _ _ _ _ |- _ => unfold PostC in H
+         | H : PostR _ _ _ _ _ _ |- _ => unfold PostR in H
+         | H : anyv _ |- _ => clear H
          | H : at_ _ _ _ _ |- _ => unfold at_, pos in H
          | H : cfgeq _ _ |- _ => unfold cfgeq in H
          | H : _ /\ _ |- _ => destruct H
@@ -170,23 +195,36 @@ Ltac feed :=
              | _ => pose proof (skipn_S_tl us j c r H)
              end
          | H : frag _ _ |- _ => unfold frag in H
-         | H : efrag _ _ |- _ => unfold efrag in H
-         | H : scan _ false [] = true |- _ => clear H
-         | H : scan _ true [] = true |- _ => discriminate H
-         | H : scan _ true (_ :: _) = true |- _ =>
+         | H : cfrag _ _ |- _ => unfold cfrag in H
+         | H : efrag _ _ _ |- _ => unfold efrag in H
+         | H : scan _ _ false [] = true |- _ => clear H
+         | H : scan _ _ true [] = true |- _ => discriminate H
+         | H : scan _ _ true (_ :: _) = true |- _ =>
              cbn [scan] in H; apply andb_true_iff in H; destruct H as [? H]
-         | H : scan ?u false (?c :: ?r) = true |- _ =>
+         | H : scan ?u false false (?c :: ?r) = true |- _ =>
              lazymatch goal with
-             | _ : keep (scan u false (c :: r) = true) |- _ => idtac
-             | _ => pose proof (H : keep (scan u false (c :: r) = true))
+             | _ : keep (scan u false false (c :: r) = true) |- _ => idtac
+             | _ => pose proof (H : keep (scan u false false (c :: r) = true))
              end;
-             cbn [scan] in H; unfold g_backslash in H;
+             cbn [scan] in H; unfold g_backslash, g_lbracket in H;
              first [ is_var c;
-                     let E := fresh "Ebs" in
-                     destruct (c =? 92)%N eqn:E; [apply N.eqb_eq in E; subst c|]
+                     let E := fresh "Ebs" in let E' := fresh "Elb" in
+                     destruct (c =? 92)%N eqn:E; [apply N.eqb_eq in E; subst c|
+                       destruct (c =? 91)%N eqn:E'; [apply N.eqb_eq in E'; subst c|]]
                    | cbn [N.eqb Pos.eqb] in H ]
-         | H : plain_char _ && local_ok _ _ && scan _ false _ = true |- _ =>
-             apply andb_true_iff in H; destruct H as [H ?]; apply andb_true_iff in H; destruct H as [? ?]
+         | H : scan ?u true false (?c :: ?r) = true |- _ =>
+             lazymatch goal with
+             | _ : keep (scan u true false (c :: r) = true) |- _ => idtac
+             | _ => pose proof (H : keep (scan u true false (c :: r) = true))
+             end;
+             cbn [scan] in H; unfold g_backslash, g_rbracket in H;
+             first [ is_var c;
+                     let E := fresh "Ebs" in let E' := fresh "Erb" in
+                     destruct (c =? 92)%N eqn:E; [apply N.eqb_eq in E; subst c|
+                       destruct (c =? 93)%N eqn:E'; [apply N.eqb_eq in E'; subst c|]; cbn [negb] in H]
+                   | cbn [N.eqb Pos.eqb negb] in H ]
+         | H : local_ok _ _ && scan _ false false _ = true |- _ =>
+             apply andb_true_iff in H; destruct H as [? ?]
          end.
 Ltac rw1 :=
   first [ rewrite r_cp_skipn
@@ -214,7 +252,6 @@ Ltac absurd_hyp :=
       unfold allowed_after_backslash, non_zero_digit in H;
       cbn [existsb N.eqb Pos.eqb N.leb N.compare Pos.compare Pos.compare_cont andb orb negb] in H; saturate H;
       cbn [orb andb negb N.eqb Pos.eqb] in H; discriminate H
-  | H : plain_char _ = true |- _ => vm_compute in H; discriminate H
   | H : assertion_prefix _ = false |- _ => vm_compute in H; discriminate H
   | H : assertion_prefix _ = false |- _ =>
       unfold assertion_prefix, is_eq_or_bang, assertion_escape in H; unfold_chars; cbn [N.eqb Pos.eqb andb orb] in H;
@@ -261,17 +298,25 @@ Ltac cleanup :=
          | H : sp_legacy_octal ?l = (false, ?r) |- _ => is_var r; pose proof (sp_legacy_octal_false_eq _ _ H); subst r
          | H : sp_escape true _ (92%N :: _) = SOk false _ |- _ => exfalso; exact (sp_escape_true_bs _ _ _ H)
          | H : sp_escape _ _ ?l = SOk false ?r |- _ => is_var r; pose proof (sp_escape_false_eq _ _ _ _ H); subst r
+         | H : sp_class _ (91%N :: _) = SOk false _ |- _ => exfalso; apply sp_class_false_eq in H; destruct H as [_ H]; discriminate H
+         | H : sp_class _ ?l = SOk false ?r |- _ => is_var r; pose proof (proj1 (sp_class_false_eq _ _ _ H)); subst r
          | H : sp_cce ?l = SOk false ?r |- _ => is_var r; pose proof (sp_cce_false_eq _ _ H); subst r
+         | H : sp_class_escape _ ?l = SOk None ?r |- _ => is_var r; pose proof (proj1 (sp_class_escape_none _ _ _ H)); subst r
+         | H : sp_class_atom _ ?l = SOk None ?r |- _ => is_var r; pose proof (sp_class_atom_none _ _ _ H); subst r
          | H : sp_ce _ ?l = SOk false ?r |- _ => is_var r; pose proof (sp_ce_false_eq _ _ _ H); subst r
          | H : sp_assertion _ ?l = SOk false ?r |- _ => is_var r; pose proof (sp_assertion_false_eq _ _ _ H); subst r
          | H : @eq unit _ _ |- _ => clear H
          | H : @eq N ?x ?y |- _ => first [is_var x; subst x | is_var y; subst y]
+         | H : @eq Z ?x ?y |- _ => first [is_var x; subst x | is_var y; subst y]
          | H : @eq (list str) ?x _ |- _ => is_var x; subst x
          end; feed.
 Ltac norm := unfold_hyps; destruct_states; cleanup.
+Lemma enc_some_neq n : (enc (Some n) =? -1)%Z = false.
+Proof. cbn [enc]. apply Z.eqb_neq. lia. Qed.
 Ltac sp_simpl :=
   repeat (change (syntax_character ?x) with (is_syntax x));
-  cbn [fst snd andb orb negb nth_error length].
+  rewrite ?enc_some_neq;
+  cbn [fst snd andb orb negb nth_error length tl hd enc Z.eqb].
 Ltac simp := rw_skipn; sp_simpl; unfold_chars; rewrite ?quantifiable_true; proj; rw_skipn.
 (* range tests on the same character that contradict each other *)
 Ltac arith_absurd :=
@@ -321,20 +366,23 @@ Ltac split_mem :=
 Ltac finish :=
   simp; repeat (case_scrut; proj; cleanup; try solve [exfalso; absurd_hyp]; simp);
   try (split_mem; try solve [exfalso; first [absurd_hyp | absurd_closed]]);
-  unfold SimP, SimB; cbn [SimR fst snd]; unfold Post, PostE, at_, cfgeq, pos, frag; proj; rewrite ?quantifiable_true;
+  unfold SimP, SimB; cbn [SimR SimC is_some fst snd]; unfold Post, PostE, PostC, PostR, enc, anyv, at_, cfgeq, pos, frag, cfrag; proj; rewrite ?quantifiable_true;
   repeat match goal with |- _ /\ _ => split end;
   try reflexivity; try assumption; try congruence;
   try solve [unfold keep in *; assumption];
-  try solve [intros; first [discriminate | assumption | unfold keep in *; assumption]];
+  try solve [intros; first [discriminate | assumption | exact I | unfold keep in *; assumption
+                           | split; first [assumption | exact I | reflexivity | unfold keep in *; assumption]]];
   try solve [unfold frag; cbn [scan N.eqb Pos.eqb]; unfold_chars; cbn [N.eqb Pos.eqb];
              repeat match goal with E : (?c =? 92)%N = false |- _ => rewrite E end;
+             repeat match goal with E : (?c =? 91)%N = false |- _ => rewrite E end;
              repeat match goal with E : ?c <> 92%N |- _ => rewrite (proj2 (N.eqb_neq c 92) E) end;
              repeat (apply andb_true_iff; split); assumption]; auto.
 
 #[global] Hint Extern 1 (at_ _ _ _ _) =>
   solve [unfold at_, pos; proj; split; [eassumption | split; [|split; [|split]]; first [reflexivity | eassumption | congruence]]] : sim.
 #[global] Hint Extern 1 (frag _ _) => solve [unfold frag, keep in *; first [eassumption | reflexivity]] : sim.
-#[global] Hint Extern 1 (efrag _ _) =>
+#[global] Hint Extern 1 (cfrag _ _) => solve [unfold cfrag, keep in *; first [eassumption | reflexivity]] : sim.
+#[global] Hint Extern 1 (efrag _ _ _) =>
   solve [unfold efrag, keep in *; first [eassumption | cbn [scan]; apply andb_true_iff; split; first [eassumption | reflexivity]]] : sim.
 #[global] Hint Extern 1 (assertion_prefix _ = false) =>
   solve [eapply sp_assertion_false_prefix; [eassumption | unfold frag, keep in *; first [eassumption | reflexivity]]] : sim.
@@ -355,10 +403,12 @@ Ltac is_call c :=
 Ltac use_lemma c :=
   let L := fresh "L" in
   first [ eassert (L : SimR _ c _) by (eauto with sim) | eassert (L : SimP _ c _) by (eauto with sim)
-        | eassert (L : SimB _ c _) by (eauto with sim) ];
+        | eassert (L : SimB _ c _) by (eauto with sim) | eassert (L : SimC _ c _) by (eauto with sim) ];
   try (rewrite sp_escape_not_bs in L by (first [assumption | reflexivity]));
   try (change (sp_escape ?uu ?nn []) with (@SOk bool false []) in L);
   try (rewrite sp_brq_nil in L);
+  try (rewrite sp_class_not_lb in L by (first [assumption | reflexivity]));
+  try (change (sp_class ?uu []) with (@SOk bool false []) in L);
   (* a backslash: look at the escaped unit before comparing the outcomes *)
   repeat match type of L with
          | SimR _ _ (if ?b then _ else _) => destruct b eqn:?
@@ -376,6 +426,8 @@ Ltac use_lemma c :=
                    destruct c eqn:E1; destruct x eqn:E2; unfold SimP in L; cbn [fst snd] in L; try contradiction; clear E1; norm
   | SimB _ _ ?x => let E1 := fresh "E" in let E2 := fresh "E" in
                    destruct c eqn:E1; destruct x eqn:E2; unfold SimB in L; cbn [fst snd] in L; clear E1; norm
+  | SimC _ _ ?x => let E1 := fresh "E" in let E2 := fresh "E" in
+                   destruct c eqn:E1; destruct x as [[[?|]|] ?| |] eqn:E2; cbn [SimC is_some] in L; try contradiction; clear E1; norm
   end.
 Ltac step :=
   simp;
@@ -392,6 +444,13 @@ Ltac step :=
               | nth_error ?m _ => is_var m; destruct m
               | _ => split_test c
               end ]
+  | |- SimC _ ?l _ =>
+      first [ is_call l; use_lemma l
+            | let c := head_scrut l in first [ is_call c; use_lemma c
+            | lazymatch c with
+              | nth_error ?m _ => is_var m; destruct m
+              | _ => split_test c
+              end ] ]
   | |- SimB _ ?l _ => let c := head_scrut l in
       first [ is_call c; use_lemma c
             | lazymatch c with
@@ -403,6 +462,7 @@ Lemma SimR_weaken {A} (P' P : A -> vst -> list N -> Prop) (r : R A) x :
   SimR P' r x -> (forall a t l, P' a t l -> P a t l) -> SimR P r x.
 Proof. destruct r, x; cbn [SimR]; try tauto. intros [-> HP] HW. split; [reflexivity|apply HW; exact HP]. Qed.
 Ltac tail :=
+  simp;
   lazymatch goal with
   | |- SimR _ (Ok _ _) _ => fail
   | |- SimR _ (SyntaxErr _ _) _ => fail
@@ -458,15 +518,17 @@ Proof.
   revert i. induction a as [|x a IH]; intros i H; [rewrite Nat.add_0_r; exact H|].
   cbn [length]. rewrite Nat.add_succ_r. apply (IH (S i)). apply (skipn_S_tl us i x). exact H.
 Qed.
-Lemma scan_drop u ds r : Forall (fun c => (c =? 92) = false) ds -> scan u false (ds ++ r) = true -> scan u false r = true.
+(* units the scan passes over, inside a class or not *)
+Definition okc (c : N) : Prop := (c =? 92) = false /\ (c =? 91) = false /\ (c =? 93) = false.
+Lemma scan_drop u cls ds r : Forall okc ds -> scan u cls false (ds ++ r) = true -> scan u cls false r = true.
 Proof.
-  induction 1 as [|d ds Hd _ IH]; [trivial|]. cbn [app scan]. unfold g_backslash. rewrite Hd. intros H.
-  apply andb_true_iff in H. apply IH. apply H.
+  induction 1 as [|d ds [H1 [H2 H3]] _ IH]; [trivial|]. cbn [app scan]. unfold g_backslash, g_lbracket, g_rbracket. rewrite H1, H2, H3.
+  destruct cls; cbn [negb]; intros H; [apply IH; exact H|]. apply andb_true_iff in H. apply IH. apply H.
 Qed.
-Lemma digit_not_bs ds : Forall digit ds -> Forall (fun c => (c =? 92) = false) ds.
+Lemma digit_not_bs ds : Forall digit ds -> Forall okc ds.
 Proof.
   apply Forall_impl. intros c Hc. unfold digit, decimal_digit in Hc. apply andb_true_iff in Hc. destruct Hc as [_ Hc].
-  apply N.leb_le in Hc. apply N.eqb_neq. lia.
+  apply N.leb_le in Hc. repeat split; apply N.eqb_neq; lia.
 Qed.
 Lemma is_nil_true {A} (l : list A) : is_nil l = true -> l = [].
 Proof. destruct l; [reflexivity|discriminate]. Qed.
@@ -483,9 +545,9 @@ Proof.
   - simp. cbn [starts_with]. destruct (c =? 123) eqn:Ec.
     2:{ cbn [sp_braced]. unfold g_lbrace. rewrite Ec. rewrite andb_false_r. finish. }
     apply N.eqb_eq in Ec; subst c.
-    assert (Hb : braces_small (123 :: r) = true /\ scan u false r = true).
-    { cbn [scan] in Hf. cbn [N.eqb Pos.eqb g_backslash] in Hf. unfold local_ok in Hf. cbn [N.eqb Pos.eqb g_lbrace] in Hf.
-      apply andb_true_iff in Hf. destruct Hf as [Hf1 Hf2]. split; [|exact Hf2]. apply andb_true_iff in Hf1. apply Hf1. }
+    assert (Hb : braces_small (123 :: r) = true /\ scan u false false r = true).
+    { cbn [scan] in Hf. cbn [N.eqb Pos.eqb g_backslash g_lbracket] in Hf. unfold local_ok in Hf. cbn [N.eqb Pos.eqb g_lbrace] in Hf.
+      apply andb_true_iff in Hf. exact Hf. }
     destruct Hb as [Hb Hr]. unfold braces_small in Hb.
     cbn [sp_braced] in *. cbn [N.eqb Pos.eqb g_lbrace] in *.
     pose proof (skipn_S_tl _ _ _ _ H) as H1.
@@ -494,7 +556,7 @@ Proof.
     destruct (is_nil ds) eqn:En; cbn [negb].
     { apply is_nil_true in En. subst ds. rewrite andb_true_r. destruct ne, u; cbn [negb andb orb]; finish. }
     pose proof (skipn_app_drop _ _ _ _ (eq_trans H1 E1)) as H2.
-    assert (Hr1 : scan u false r1 = true) by (apply (scan_drop u ds); [apply digit_not_bs; exact F1|rewrite <- E1; exact Hr]).
+    assert (Hr1 : scan u false false r1 = true) by (apply (scan_drop u false ds); [apply digit_not_bs; exact F1|rewrite <- E1; exact Hr]).
     destruct r1 as [|c1 r2].
     { simp. rewrite andb_true_r. destruct ne, u; cbn [negb andb orb]; finish. }
     simp.
@@ -502,23 +564,23 @@ Proof.
     unfold g_comma in *.
     destruct (c1 =? 125) eqn:Ec1.
     { apply N.eqb_eq in Ec1. subst c1.
-      assert (Hr2 : scan u false r2 = true) by (apply (scan_drop u [125]); [repeat constructor|exact Hr1]).
+      assert (Hr2 : scan u false false r2 = true) by (apply (scan_drop u false [125]); [repeat constructor|exact Hr1]).
       cbn [N.eqb Pos.eqb]. simp. rewrite Z.ltb_irrefl. rewrite andb_false_r.
       cbn [bounds_ok]. rewrite N.leb_refl. cbn [negb]. rewrite andb_false_r. finish. }
     destruct (c1 =? 44) eqn:Ec2.
     2:{ simp. rewrite Ec1. rewrite andb_true_r. destruct ne, u; cbn [negb andb orb]; finish. }
-    assert (Hr2 : scan u false r2 = true).
-    { apply N.eqb_eq in Ec2. subst c1. apply (scan_drop u [44]); [repeat constructor|exact Hr1]. }
+    assert (Hr2 : scan u false false r2 = true).
+    { apply N.eqb_eq in Ec2. subst c1. apply (scan_drop u false [44]); [repeat constructor|exact Hr1]. }
     rewrite (eat_decimal_digits_eq _ _ _ _ _ _ _ _ _ _ _ _ _ _ _ r2 H3). proj.
     destruct (span_digits_spec r2) as [E2 [F2 N2]]. destruct (span_digits r2) as [es r3]. cbn [fst snd] in *.
     pose proof (skipn_app_drop _ _ _ _ (eq_trans H3 E2)) as H4.
-    assert (Hr3 : scan u false r3 = true) by (apply (scan_drop u es); [apply digit_not_bs; exact F2|rewrite <- E2; exact Hr2]).
+    assert (Hr3 : scan u false false r3 = true) by (apply (scan_drop u false es); [apply digit_not_bs; exact F2|rewrite <- E2; exact Hr2]).
     destruct r3 as [|c3 r4].
     { simp. rewrite andb_true_r. destruct ne, u; cbn [negb andb orb]; finish. }
     simp. destruct (c3 =? 125) eqn:Ec3.
     2:{ rewrite andb_true_r. destruct ne, u; cbn [negb andb orb]; finish. }
     apply N.eqb_eq in Ec3. subst c3. pose proof (skipn_S_tl _ _ _ _ H4) as H5.
-    assert (Hr4 : scan u false r4 = true) by (apply (scan_drop u [125]); [repeat constructor|exact Hr3]).
+    assert (Hr4 : scan u false false r4 = true) by (apply (scan_drop u false [125]); [repeat constructor|exact Hr3]).
     apply andb_true_iff in Hb. destruct Hb as [Hb1 Hb2].
     rewrite (min_small _ Hb1).
     destruct (is_nil es) eqn:En2; cbn [negb bounds_ok].
@@ -577,8 +639,8 @@ Proof.
   intros <-. revert us. induction i as [|i IH]; intros us; [reflexivity|].
   destruct us as [|x us]; [cbn [plus skipn]; destruct n; reflexivity|]. cbn [plus skipn]. apply IH.
 Qed.
-Lemma hexd_not_bs hs : Forall hexd hs -> Forall (fun c => (c =? 92) = false) hs.
-Proof. apply Forall_impl. intros c Hc. apply N.eqb_neq. intros ->. discriminate Hc. Qed.
+Lemma hexd_not_bs hs : Forall hexd hs -> Forall okc hs.
+Proof. apply Forall_impl. intros c Hc. repeat split; apply N.eqb_neq; intros ->; discriminate Hc. Qed.
 Lemma eat_fixed_hex_digits_eq st uf nf lv mn mx ls lk lvv lq nc gn bn us i n l : skipn i us = l ->
   eat_fixed_hex_digits n (mkvst (mkreader us i) st uf nf lv mn mx ls lk lvv lq nc gn bn) =
   (fst (hex_foldZ n l 0),
@@ -589,23 +651,27 @@ Proof.
   apply fixed_hex_eq. exact Hl.
 Qed.
 
-Lemma eat_fixed_hex_digits_sim n u np s l : at_ u np s l -> frag u l ->
-  SimB (Post u np s) (eat_fixed_hex_digits n s) (sp_fixed_hex n l).
+(* the hypothesis a lemma about a piece of an escape needs: the scan invariant at its position, inside a class or not *)
+Definition fragc (u cls : bool) (l : list N) : Prop := scan u cls false l = true.
+#[global] Hint Extern 1 (fragc _ _ _) => solve [unfold fragc, keep in *; first [eassumption | reflexivity]] : sim.
+Ltac finishB :=
+  unfold SimB; cbn [fst snd]; split; [reflexivity|]; unfold PostE, at_, cfgeq, pos; proj;
+  repeat split; try reflexivity; try assumption; try (intros; discriminate).
+Lemma eat_fixed_hex_digits_sim n u cls np s l : at_ u np s l -> fragc u cls l ->
+  SimB (PostE u cls np (eq (Z.of_N (hex_run_value n l))) s) (eat_fixed_hex_digits n s) (sp_fixed_hex n l).
 Proof.
-  intros Ha Hf. unfold frag in Hf. unfold_hyps. destruct_states. cleanup.
-  rewrite (eat_fixed_hex_digits_eq _ _ _ _ _ _ _ _ _ _ _ _ _ _ _ n l H). unfold sp_fixed_hex.
+  intros Ha Hf. unfold fragc in Hf. unfold_hyps. destruct_states. cleanup.
+  rewrite (eat_fixed_hex_digits_eq _ _ _ _ _ _ _ _ _ _ _ _ _ _ _ n l H). unfold sp_fixed_hex, hex_run_value.
   pose proof (hex_fold_run n l 0) as Hr. change (Z.of_N 0) with 0%Z in Hr.
   destruct (hex_run n l 0) as [[v r]|] eqn:E.
   - destruct Hr as [Hr ->]. rewrite Hr. cbn [fst snd]. unfold SimB. cbn [fst snd]. split; [reflexivity|].
     apply hex_run_spec in E. destruct E as [hs [E [_ [Hh _]]]].
-    unfold Post, at_, cfgeq, frag, pos. proj. repeat split; try reflexivity.
+    unfold PostE, at_, cfgeq, pos. proj. repeat split; try reflexivity.
     + apply skipn_skipn'. exact H.
-    + apply (scan_drop u hs); [apply hexd_not_bs; exact Hh|]. rewrite <- E. exact Hf.
-  - rewrite Hr. unfold SimB. cbn [fst snd]. split; [reflexivity|].
-    unfold Post, at_, cfgeq, frag, pos. proj. repeat split; try reflexivity; assumption.
+    + apply (scan_drop u cls hs); [apply hexd_not_bs; exact Hh|]. rewrite <- E. exact Hf.
+  - rewrite Hr. finishB.
 Qed.
 #[local] Hint Resolve eat_fixed_hex_digits_sim : sim.
-
 Lemma is_lead_N v : is_lead (Z.of_N v) = lead_surrogate v.
 Proof.
   unfold is_lead, lead_surrogate. f_equal; [destruct (N.leb_spec 55296 v)|destruct (N.leb_spec v 56319)];
@@ -616,13 +682,17 @@ Proof.
   unfold is_trail, trail_surrogate. f_equal; [destruct (N.leb_spec 56320 v)|destruct (N.leb_spec v 57343)];
     first [apply Z.leb_le; lia | apply Z.leb_gt; lia].
 Qed.
-Ltac finishB :=
-  unfold SimB; cbn [fst snd]; split; [reflexivity|]; unfold Post, at_, cfgeq, frag, pos; proj;
-  repeat split; try reflexivity; try assumption.
-Lemma eat_surrogate_pair_escape_sim u np s l : at_ u np s l -> frag u l ->
-  SimB (Post u np s) (eat_surrogate_pair_escape s) (sp_surrogate_pair l).
+Lemma combine_N v w : lead_surrogate v = true -> trail_surrogate w = true ->
+  combine (Z.of_N v) (Z.of_N w) = Z.of_N ((v - 55296) * 1024 + (w - 56320) + 65536).
 Proof.
-  intros Ha Hf. unfold frag in Hf. unfold_hyps. destruct_states. cleanup.
+  unfold lead_surrogate, trail_surrogate, combine. intros Hl Ht. apply andb_true_iff in Hl, Ht. destruct Hl as [H1 H2], Ht as [H3 H4].
+  apply N.leb_le in H1, H2, H3, H4. lia.
+Qed.
+Lemma eat_surrogate_pair_escape_sim u cls np s l : at_ u np s l -> fragc u cls l ->
+  SimB (PostE u cls np (eq (Z.of_N ((hex_run_value 4 l - 55296) * 1024 + (hex_run_value 4 (skipn 6 l) - 56320) + 65536))) s)
+       (eat_surrogate_pair_escape s) (sp_surrogate_pair l).
+Proof.
+  intros Ha Hf. unfold fragc in Hf. unfold_hyps. destruct_states. cleanup.
   unfold eat_surrogate_pair_escape, sp_surrogate_pair.
   rewrite (eat_fixed_hex_digits_eq _ _ _ _ _ _ _ _ _ _ _ _ _ _ _ 4 l H).
   pose proof (hex_fold_run 4 l 0) as Hr. change (Z.of_N 0) with 0%Z in Hr.
@@ -632,8 +702,8 @@ Proof.
   destruct (lead_surrogate v) eqn:El.
   2:{ prim. finishB. }
   pose proof (skipn_skipn' _ _ 4 _ H) as H1. rewrite <- Er1 in H1.
-  apply hex_run_spec in E. destruct E as [hs [E [_ [Hh _]]]].
-  assert (Hf1 : scan u false r1 = true) by (apply (scan_drop u hs); [apply hexd_not_bs; exact Hh|rewrite <- E; exact Hf]).
+  pose proof E as E'. apply hex_run_spec in E. destruct E as [hs [E [Hlen [Hh _]]]].
+  assert (Hf1 : scan u cls false r1 = true) by (apply (scan_drop u cls hs); [apply hexd_not_bs; exact Hh|rewrite <- E; exact Hf]).
   prim. rw_skipn.
   destruct r1 as [|b [|x r2]]; [proj; finishB| |].
   { proj. unfold_chars. destruct (b =? 92) eqn:Eb; [|proj; finishB]. apply N.eqb_eq in Eb. subst b.
@@ -642,7 +712,7 @@ Proof.
   pose proof (skipn_S_tl _ _ _ _ H1) as H2. proj. rw_skipn. proj.
   destruct (x =? 117) eqn:Ex; [|proj; finishB]. apply N.eqb_eq in Ex. subst x.
   pose proof (skipn_S_tl _ _ _ _ H2) as H3. proj. rw_skipn.
-  assert (Hf2 : scan u false r2 = true).
+  assert (Hf2 : scan u cls false r2 = true).
   { cbn [scan] in Hf1. cbn [N.eqb Pos.eqb g_backslash] in Hf1. apply andb_true_iff in Hf1. apply Hf1. }
   rewrite (eat_fixed_hex_digits_eq _ _ _ _ _ _ _ _ _ _ _ _ _ _ _ 4 r2 H3).
   pose proof (hex_fold_run 4 r2 0) as Hr2. change (Z.of_N 0) with 0%Z in Hr2.
@@ -651,12 +721,15 @@ Proof.
   destruct Hr2 as [Hr2 Er3]. rewrite Hr2. cbn [fst snd]. proj. rewrite is_trail_N.
   destruct (trail_surrogate w) eqn:Et; [|proj; finishB].
   pose proof (skipn_skipn' _ _ 4 _ H3) as H4. rewrite <- Er3 in H4.
-  apply hex_run_spec in E2. destruct E2 as [ts [E2 [_ [Ht _]]]].
-  assert (Hf3 : scan u false r3 = true) by (apply (scan_drop u ts); [apply hexd_not_bs; exact Ht|rewrite <- E2; exact Hf2]).
-  finishB.
+  pose proof E2 as E2'. apply hex_run_spec in E2. destruct E2 as [ts [E2 [_ [Ht _]]]].
+  assert (Hf3 : scan u cls false r3 = true) by (apply (scan_drop u cls ts); [apply hexd_not_bs; exact Ht|rewrite <- E2; exact Hf2]).
+  assert (Hv : hex_run_value 4 l = v) by (unfold hex_run_value; rewrite E'; reflexivity).
+  assert (Hw : hex_run_value 4 (skipn 6 l) = w).
+  { rewrite E. destruct hs as [|h1 [|h2 [|h3 [|h4 [|h5 hs]]]]]; try discriminate Hlen. cbn [app skipn].
+    unfold hex_run_value. rewrite E2'. reflexivity. }
+  rewrite Hv, Hw. rewrite combine_N by assumption. finishB.
 Qed.
 #[local] Hint Resolve eat_surrogate_pair_escape_sim : sim.
-
 Definition sat_step16 (z : Z) (c : N) : Z := sat_mul_add 16 z (hexval c).
 Lemma digits_loop_hex st uf nf mn mx ls lk lvv lq nc gn bn us : forall l f i lv, skipn i us = l -> (length l < f)%nat ->
   digits_loop f true (mkvst (mkreader us i) st uf nf lv mn mx ls lk lvv lq nc gn bn) =
@@ -693,40 +766,47 @@ Proof.
   unfold pos. cbn [rd idx]. f_equal. destruct (fst (span_hex l)) as [|d0 ds0]; cbn [length is_nil negb]; [rewrite Nat.add_0_r, Nat.eqb_refl; reflexivity|].
   destruct (Nat.eqb_spec (i + S (length ds0)) i); [lia|reflexivity].
 Qed.
-Lemma eat_codepoint_escape_sim u np s l : at_ u np s l -> frag u l ->
-  SimR (Post u np s) (eat_codepoint_escape s) (sp_codepoint l).
+Lemma eat_codepoint_escape_sim u cls np s l : at_ u np s l -> fragc u cls l ->
+  SimR (PostE u cls np (eq (Z.of_N (hex_value (fst (span_hex (tl l)))))) s) (eat_codepoint_escape s) (sp_codepoint l).
 Proof.
-  intros Ha Hf. unfold frag in Hf. unfold_hyps. destruct_states. cleanup.
+  intros Ha Hf. unfold fragc in Hf. unfold_hyps. destruct_states. cleanup.
   unfold eat_codepoint_escape, sp_codepoint, bind. prim.
   destruct l as [|c r]; [simp; finish|]. simp. destruct (c =? 123) eqn:Ec; [|finish].
   apply N.eqb_eq in Ec. subst c. pose proof (skipn_S_tl _ _ _ _ H) as H1.
-  assert (Hr : scan u false r = true) by (apply (scan_drop u [123]); [repeat constructor|exact Hf]).
-  rewrite (eat_hex_digits_eq _ _ _ _ _ _ _ _ _ _ _ _ _ _ _ r H1). proj.
+  assert (Hr : scan u cls false r = true) by (apply (scan_drop u cls [123]); [repeat constructor|exact Hf]).
+  rewrite (eat_hex_digits_eq _ _ _ _ _ _ _ _ _ _ _ _ _ _ _ r H1). proj. cbn [tl].
   destruct (span_hex_spec r) as [E1 [F1 _]]. destruct (span_hex r) as [ds r1]. cbn [fst snd] in *.
   destruct (is_nil ds) eqn:En; cbn [negb]; [finish|].
   pose proof (skipn_app_drop _ _ _ _ (eq_trans H1 E1)) as H2.
-  assert (Hr1 : scan u false r1 = true) by (apply (scan_drop u ds); [apply hexd_not_bs; exact F1|rewrite <- E1; exact Hr]).
+  assert (Hr1 : scan u cls false r1 = true) by (apply (scan_drop u cls ds); [apply hexd_not_bs; exact F1|rewrite <- E1; exact Hr]).
   destruct r1 as [|c1 r2]; [simp; finish|]. simp. destruct (c1 =? 125) eqn:Ec1; [|cbn [andb]; finish].
   apply N.eqb_eq in Ec1. subst c1. pose proof (skipn_S_tl _ _ _ _ H2) as H3.
-  assert (Hr2 : scan u false r2 = true) by (apply (scan_drop u [125]); [repeat constructor|exact Hr1]).
+  assert (Hr2 : scan u cls false r2 = true) by (apply (scan_drop u cls [125]); [repeat constructor|exact Hr1]).
   cbn [andb]. proj.
   replace (Z.min i64max (Z.of_N (hex_value ds)) <=? 1114111)%Z with (hex_value ds <=? 1114111).
   2:{ unfold i64max. destruct (N.leb_spec (hex_value ds) 1114111); symmetry; [apply Z.leb_le|apply Z.leb_gt]; lia. }
-  destruct (hex_value ds <=? 1114111); finish.
+  destruct (hex_value ds <=? 1114111) eqn:Ev; [|finish]. apply N.leb_le in Ev.
+  replace (Z.min i64max (Z.of_N (hex_value ds))) with (Z.of_N (hex_value ds)) by (unfold i64max; lia). finish.
 Qed.
 #[local] Hint Resolve eat_codepoint_escape_sim : sim.
 
-Lemma eat_hex_escape_sequence_sim u np s l : at_ u np s l -> efrag u l ->
-  SimR (PostE u np s) (eat_hex_escape_sequence s) (sp_hex_esc u l).
-Proof. start eat_hex_escape_sequence. unfold sp_hex_esc. go. Qed.
+Lemma eat_hex_escape_sequence_sim u cls np s l : at_ u np s l -> efrag u cls l ->
+  SimR (PostE u cls np (eq (Z.of_N (hex_run_value 2 (tl l)))) s) (eat_hex_escape_sequence s) (sp_hex_esc u l).
+Proof. destruct cls; start eat_hex_escape_sequence; unfold sp_hex_esc; go. Qed.
 #[local] Hint Resolve eat_hex_escape_sequence_sim : sim.
-Lemma eat_unicode_escape_sim u np s l : at_ u np s l -> efrag u l ->
-  SimR (PostE u np s) (eat_unicode_escape false s) (sp_unicode_esc u l).
-Proof. start eat_unicode_escape. unfold sp_unicode_esc. go. Qed.
+Ltac uval :=
+  intros _; split; [assumption|]; cbn [tl]; unfold unicode_value, hex_run_value in *;
+  repeat match goal with
+         | E : sp_surrogate_pair ?l = _ |- context [sp_surrogate_pair ?l] => rewrite E
+         | E : sp_fixed_hex ?n ?l = _ |- _ =>
+             unfold sp_fixed_hex in E; destruct (hex_run n l 0) as [[? ?]|] eqn:?; try discriminate E; clear E
+         end; cbn [fst snd andb]; first [assumption | reflexivity].
+Lemma eat_unicode_escape_sim u cls np s l : at_ u np s l -> efrag u cls l ->
+  SimR (PostE u cls np (eq (Z.of_N (unicode_value u (tl l)))) s) (eat_unicode_escape false s) (sp_unicode_esc u l).
+Proof. destruct cls; start eat_unicode_escape; unfold sp_unicode_esc; go; uval. Qed.
 #[local] Hint Resolve eat_unicode_escape_sim : sim.
-
 (* ---- AtomEscape: the validator is at the unit after the backslash ---- *)
-Lemma efrag_cons u x r : efrag u (x :: r) -> allowed_after_backslash u x r = true /\ scan u false r = true.
+Lemma efrag_cons u cls x r : efrag u cls (x :: r) -> allowed_after_backslash u cls x r = true /\ scan u cls false r = true.
 Proof. unfold efrag. cbn [scan]. intros H. apply andb_true_iff in H. exact H. Qed.
 Lemma nonzero_digit_test x : is_digit x && negb (x =? 48) = non_zero_digit x.
 Proof.
@@ -735,65 +815,70 @@ Proof.
 Qed.
 
 (* consume_backreference: DecimalEscape *)
-Lemma consume_backreference_sim u np s l : at_ u np s l -> efrag u l ->
-  SimR (PostE u np s) (consume_backreference s) (sp_backref u np l).
+Lemma consume_backreference_sim u np s l : at_ u np s l -> efrag u false l ->
+  SimR (PostE u false np anyv s) (consume_backreference s) (sp_backref u np l).
 Proof.
   intros Ha He. destruct l as [|x r]; [exfalso; unfold efrag in He; discriminate He|].
-  destruct (efrag_cons _ _ _ He) as [Hal Hr]. unfold_hyps. destruct_states. cleanup.
+  destruct (efrag_cons _ _ _ _ He) as [Hal Hr]. unfold_hyps. destruct_states. cleanup.
   unfold consume_backreference, eat_decimal_escape, bind. prim. simp.
   rewrite nonzero_digit_test. cbn [sp_backref]. destruct (non_zero_digit x) eqn:Ex; [|finish].
   pose proof (non_zero_digit_digit x Ex) as Hdig.
   rewrite (digits_loop_dec _ _ _ _ _ _ _ _ _ _ _ _ units (x :: r)) by (first [assumption | cbn [length]; lia]).
   rewrite (span_digits_cons x r Hdig). cbn [fst].
   change 0%Z with (Z.min i64max (Z.of_N 0)). rewrite sat_fold. fold (dec_value (x :: fst (span_digits r))).
-  unfold allowed_after_backslash in Hal. rewrite Ex in Hal. apply andb_true_iff in Hal. destruct Hal as [Hsmall _].
+  unfold allowed_after_backslash in Hal. cbn [negb andb] in Hal. rewrite Ex in Hal. apply andb_true_iff in Hal. destruct Hal as [Hsmall _].
   rewrite (min_small _ Hsmall). proj.
   replace (Z.of_N (dec_value (x :: fst (span_digits r))) <=? Z.of_N np)%Z with (dec_value (x :: fst (span_digits r)) <=? np).
   2:{ destruct (N.leb_spec (dec_value (x :: fst (span_digits r))) np); symmetry; [apply Z.leb_le|apply Z.leb_gt]; lia. }
   destruct (span_digits_spec r) as [E1 [F1 _]].
   assert (H2 : skipn (idx + length (x :: fst (span_digits r))) units = snd (span_digits r)).
   { apply skipn_app_drop. rewrite H. cbn [app]. f_equal. exact E1. }
-  assert (Hr1 : scan u false (snd (span_digits r)) = true).
-  { apply (scan_drop u (fst (span_digits r))); [apply digit_not_bs; exact F1|rewrite <- E1; exact Hr]. }
+  assert (Hr1 : scan u false false (snd (span_digits r)) = true).
+  { apply (scan_drop u false (fst (span_digits r))); [apply digit_not_bs; exact F1|rewrite <- E1; exact Hr]. }
   destruct (dec_value (x :: fst (span_digits r)) <=? np); [finish|]. destruct u; cbn [orb]; finish.
 Qed.
 #[local] Hint Resolve consume_backreference_sim : sim.
-
 (* LegacyOctalEscapeSequence *)
 Lemma zero_to_three_digval a : is_octal a = true -> zero_to_three a = (digval a <=? 3)%Z.
 Proof.
   unfold is_octal, zero_to_three, digval. intros H. apply andb_true_iff in H. destruct H as [H1 H2]. rewrite H1. cbn [andb].
   apply N.leb_le in H1, H2. destruct (N.leb_spec a 51); symmetry; [apply Z.leb_le|apply Z.leb_gt]; lia.
 Qed.
-Lemma eat_legacy_octal_sim u np s l : at_ u np s l -> efrag u l ->
-  SimB (PostE u np s) (eat_legacy_octal s) (sp_legacy_octal l).
+Ltac oval :=
+  intros _; split; [first [assumption | unfold keep in *; assumption | reflexivity]|];
+  cbn [legacy_octal_value]; change octal_digit with is_octal;
+  repeat match goal with
+         | E : is_octal ?c = _ |- context [is_octal ?c] => rewrite E
+         | E : zero_to_three ?c = _ |- context [zero_to_three ?c] => rewrite E
+         end;
+  try (change (is_octal 92) with false); try (change (is_octal 93) with false); try (change (is_octal 91) with false);
+  unfold digval; lia.
+Lemma eat_legacy_octal_sim u cls np s l : at_ u np s l -> efrag u cls l ->
+  SimB (PostE u cls np (eq (Z.of_N (legacy_octal_value l))) s) (eat_legacy_octal s) (sp_legacy_octal l).
 Proof.
   intros Ha He. destruct l as [|a r1]; [exfalso; unfold efrag in He; discriminate He|].
-  destruct (efrag_cons _ _ _ He) as [Hal Hr].
-  norm. unfold eat_legacy_octal, eat_octal_digit. prim. unfold sp_legacy_octal. change octal_digit with is_octal.
-  destruct (is_octal a) eqn:Ea.
-  - rewrite (zero_to_three_digval a Ea). go.
-  - go.
+  destruct (efrag_cons _ _ _ _ He) as [Hal Hr].
+  destruct cls; norm; unfold eat_legacy_octal, eat_octal_digit; prim; unfold sp_legacy_octal; change octal_digit with is_octal;
+    (destruct (is_octal a) eqn:Ea; [pose proof (zero_to_three_digval a Ea) as Hz; destruct (zero_to_three a) eqn:E03; symmetry in Hz; rewrite ?Hz|]);
+    go; oval.
 Qed.
 #[local] Hint Resolve eat_legacy_octal_sim : sim.
-
 Ltac split_special x :=
   let Ex := fresh "Ex" in
   destruct (existsb (N.eqb x) [100; 68; 115; 83; 119; 87; 112; 80; 102; 110; 114; 116; 118; 99; 48; 120; 117; 107;
                                94; 36; 92; 46; 42; 43; 63; 40; 41; 91; 93; 123; 125; 124; 47]) eqn:Ex;
   [ split_mem; cbn [N.eqb Pos.eqb] in *
   | cbn [existsb] in Ex; repeat (apply orb_false_iff in Ex; let E := fresh "Ne" in destruct Ex as [E Ex]); clear Ex ].
-Lemma cce_sim u np s l : at_ u np s l -> efrag u l ->
-  SimR (PostE u np s) (consume_character_class_escape s) (sp_cce l).
+Lemma cce_sim u cls np s l : at_ u np s l -> efrag u cls l ->
+  SimR (PostE u cls np (eq (-1)%Z) s) (consume_character_class_escape s) (sp_cce l).
 Proof.
   intros Ha He. destruct l as [|x r].
   { exfalso. unfold efrag in He. discriminate He. }
-  destruct (efrag_cons _ _ _ He) as [Hal Hr].
-  norm. unfold consume_character_class_escape, bind. prim. unfold sp_cce, character_class_escape. cbn [existsb].
-  split_special x; go.
+  destruct (efrag_cons _ _ _ _ He) as [Hal Hr].
+  destruct cls; norm; unfold consume_character_class_escape, bind; prim; unfold sp_cce, character_class_escape; cbn [existsb];
+    split_special x; go.
 Qed.
 #[local] Hint Resolve cce_sim : sim.
-
 Ltac split_special_digits x :=
   let Ex := fresh "Ex" in
   destruct (existsb (N.eqb x) [100; 68; 115; 83; 119; 87; 112; 80; 102; 110; 114; 116; 118; 99; 48; 120; 117; 107;
@@ -801,21 +886,56 @@ Ltac split_special_digits x :=
                                49; 50; 51; 52; 53; 54; 55; 56; 57]) eqn:Ex;
   [ split_mem; cbn [N.eqb Pos.eqb] in *
   | cbn [existsb] in Ex; repeat (apply orb_false_iff in Ex; let E := fresh "Ne" in destruct Ex as [E Ex]); clear Ex ].
-Lemma ce_sim u np s l : at_ u np s l -> efrag u l ->
-  SimR (PostE u np s) (consume_character_escape s) (sp_ce u l).
+Lemma sp_hex_esc_not_x' u c r : (c =? 120)%N = false -> sp_hex_esc u (c :: r) = SOk false (c :: r).
+Proof. intros H. cbn [sp_hex_esc]. rewrite H. reflexivity. Qed.
+Lemma sp_unicode_esc_not_u' u c r : (c =? 117)%N = false -> sp_unicode_esc u (c :: r) = SOk false (c :: r).
+Proof. intros H. cbn [sp_unicode_esc]. rewrite H. reflexivity. Qed.
+Lemma is_digit_octal c : is_digit c = false -> octal_digit c = false.
+Proof. intros H. destruct (octal_digit c) eqn:E; [|reflexivity]. apply octal_is_digit in E. change (decimal_digit c) with (is_digit c) in E. congruence. Qed.
+Lemma mod32_N n : Z.of_N (n mod 32) = (Z.of_N n mod 32)%Z.
+Proof. apply N2Z.inj_mod. Qed.
+(* the CharacterValue goal left by the symbolic execution of consume_character_escape *)
+Ltac cval :=
+  intros _; split; [first [assumption | unfold keep in *; assumption | reflexivity | cbn [tl]; assumption]|];
+  try solve [exfalso; match goal with
+             | E : sp_hex_esc _ (?x :: _) = SOk true _ |- _ => rewrite sp_hex_esc_not_x' in E by (first [assumption | reflexivity]); discriminate E
+             | E : sp_unicode_esc _ (?x :: _) = SOk true _ |- _ => rewrite sp_unicode_esc_not_u' in E by (first [assumption | reflexivity]); discriminate E
+             | E : sp_legacy_octal (?x :: _) = (false, _) |- _ => apply sp_legacy_octal_false in E; destruct E as [_ E]; discriminate E
+             | E : sp_legacy_octal (?x :: _) = (true, _), D : is_digit ?x = false |- _ =>
+                 cbn [sp_legacy_octal] in E; rewrite (is_digit_octal x D) in E; discriminate E
+             end];
+  unfold ce_value; change decimal_digit with is_digit; change control_letter with is_alpha;
+  cbn [control_escape existsb N.eqb Pos.eqb orb andb negb starts_letter starts_digit hd tl control_escape_value] in *;
+  change decimal_digit with is_digit; change control_letter with is_alpha; try (change (octal_digit 48) with true);
+  repeat match goal with
+         | E : (?x =? _)%N = false |- context [(?x =? _)%N] => rewrite E
+         | E : is_alpha ?x = _ |- context [is_alpha ?x] => rewrite E
+         | E : is_digit ?x = _ |- context [is_digit ?x] => rewrite E
+         | E : sp_hex_esc ?u ?l = _ |- context [sp_hex_esc ?u ?l] => rewrite E
+         | E : sp_unicode_esc ?u ?l = _ |- context [sp_unicode_esc ?u ?l] => rewrite E
+         end;
+  cbn [is_true orb andb negb sp_hex_esc sp_unicode_esc N.eqb Pos.eqb];
+  repeat match goal with
+         | D : is_digit ?x = false |- context [octal_digit ?x] => rewrite (is_digit_octal x D)
+         end;
+  cbn [andb negb orb]; rewrite ?mod32_N;
+  first [ reflexivity | assumption | (rewrite andb_false_r; reflexivity) | idtac ].
+Ltac ce_script x :=
+  norm; unfold consume_character_escape, eat_control_escape, eat_c_control_letter, eat_control_letter, eat_zero, eat_identity_escape, valid_identity_escape, bind; prim;
+  unfold sp_ce, control_escape, identity_escape, starts_letter, starts_digit; cbn [existsb];
+  change decimal_digit with is_digit; change control_letter with is_alpha;
+  split_special_digits x;
+  [ .. | assert (Hd' : is_digit x = false) by
+           (unfold is_digit; destruct (N.leb_spec 48 x); [|reflexivity]; destruct (N.leb_spec x 57); [|reflexivity]; exfalso;
+            repeat match goal with H : (x =? _)%N = false |- _ => apply N.eqb_neq in H end; lia) ];
+  go; cval.
+Lemma ce_sim u cls np s l : at_ u np s l -> efrag u cls l ->
+  SimR (PostE u cls np (eq (Z.of_N (ce_value u l))) s) (consume_character_escape s) (sp_ce u l).
 Proof.
   intros Ha He. destruct l as [|x r].
   { exfalso. unfold efrag in He. discriminate He. }
-  destruct (efrag_cons _ _ _ He) as [Hal Hr].
-  norm. unfold consume_character_escape, eat_control_escape, eat_c_control_letter, eat_control_letter, eat_zero, eat_identity_escape, valid_identity_escape, bind. prim.
-  unfold sp_ce, control_escape, identity_escape, starts_letter, starts_digit. cbn [existsb].
-  change decimal_digit with is_digit. change control_letter with is_alpha.
-  split_special_digits x.
-  43: { assert (Hd' : is_digit x = false).
-        { unfold is_digit. destruct (N.leb_spec 48 x); [|reflexivity]. destruct (N.leb_spec x 57); [|reflexivity]. exfalso.
-          repeat match goal with H : (x =? _) = false |- _ => apply N.eqb_neq in H end. lia. }
-        go. }
-  all: go.
+  destruct (efrag_cons _ _ _ _ He) as [Hal Hr].
+  destruct cls; ce_script x.
 Qed.
 #[local] Hint Resolve ce_sim : sim.
 
@@ -829,20 +949,82 @@ Proof.
   cbn [sp_escape N.eqb Pos.eqb g_backslash]. rewrite sp_atom_escape_split. go.
 Qed.
 #[local] Hint Resolve rs_atom_escape_sim : sim.
+(* ---- character classes ---- *)
+Lemma consume_class_escape_sim u np s l : at_ u np s l -> efrag u true l ->
+  SimC (PostC u np s) (consume_class_escape s) (sp_class_escape u l).
+Proof.
+  start consume_class_escape. unfold sp_class_escape, class_control_letter. change decimal_digit with is_digit. go.
+  cbn [hd]. rewrite mod32_N. reflexivity.
+Qed.
+#[local] Hint Resolve consume_class_escape_sim : sim.
+Lemma consume_class_atom_sim u np s l : at_ u np s l -> cfrag u l ->
+  SimC (PostC u np s) (consume_class_atom s) (sp_class_atom u l).
+Proof.
+  start consume_class_atom. unfold sp_class_atom, starts_with. go.
+Qed.
+#[local] Hint Resolve consume_class_atom_sim : sim.
+(* the early errors of a range as class_ranges tests them *)
+Lemma range_ok_b_enc u va vb : range_ok_b u va vb =
+  if ((enc va =? -1) || (enc vb =? -1))%Z then negb u else negb (enc vb <? enc va)%Z.
+Proof.
+  destruct va as [x|], vb as [y|]; cbn [range_ok_b enc]; try reflexivity.
+  - replace (Z.of_N x =? -1)%Z with false by (symmetry; apply Z.eqb_neq; lia).
+    replace (Z.of_N y =? -1)%Z with false by (symmetry; apply Z.eqb_neq; lia). cbn [orb].
+    destruct (N.leb_spec x y); symmetry; [apply negb_true_iff, Z.ltb_ge|apply negb_false_iff, Z.ltb_lt]; lia.
+  - replace (Z.of_N x =? -1)%Z with false by (symmetry; apply Z.eqb_neq; lia). reflexivity.
+Qed.
+Lemma sp_class_ranges_step u g l : sp_class_ranges u (S g) l =
+  match sp_class_atom u l with
+  | SOk None _ => SOk tt l
+  | SOk (Some va) l1 =>
+      if starts_with 45 l1 then
+        match sp_class_atom u (tl l1) with
+        | SOk None _ => SOk tt (tl l1)
+        | SOk (Some vb) l3 =>
+            if ((enc va =? -1) || (enc vb =? -1))%Z then (if u then SErr else sp_class_ranges u g l3)
+            else if (enc vb <? enc va)%Z then SErr else sp_class_ranges u g l3
+        | SErr => SErr
+        | SFuel => SFuel
+        end
+      else sp_class_ranges u g l1
+  | SErr => SErr
+  | SFuel => SFuel
+  end.
+Proof.
+  cbn [sp_class_ranges]. destruct (sp_class_atom u l) as [[va|] l1| |]; try reflexivity.
+  destruct (starts_with 45 l1); [|reflexivity]. destruct (sp_class_atom u (tl l1)) as [[vb|] l3| |]; try reflexivity.
+  rewrite range_ok_b_enc. destruct ((enc va =? -1) || (enc vb =? -1))%Z; [destruct u; reflexivity|].
+  destruct (enc vb <? enc va)%Z; reflexivity.
+Qed.
+Lemma class_ranges_sim u np g : forall s l, at_ u np s l -> cfrag u l ->
+  SimR (PostR u np s) (class_ranges g s) (sp_class_ranges u g l).
+Proof.
+  induction g as [|g IH]; intros s l Ha Hf; [exact I|]. norm. rewrite sp_class_ranges_step. cbn [class_ranges]. unfold bind, starts_with. prim.
+  go.
+Qed.
+#[local] Hint Resolve class_ranges_sim : sim.
+Lemma consume_character_class_sim u np s l : at_ u np s l -> frag u l ->
+  SimR (Post u np s) (consume_character_class s) (sp_class u l).
+Proof. start consume_character_class. unfold sp_class, starts_with. go. Qed.
+#[local] Hint Resolve consume_character_class_sim : sim.
 
 (* count_capturing_parens on fragment inputs: the groups count_groups finds *)
-Lemma count_parens_groups u : forall l esc acc, scan u esc l = true ->
-  count_parens l false esc acc = (acc + count_groups l false esc)%N.
+Lemma count_parens_groups u : forall l cls esc acc, scan u cls esc l = true ->
+  count_parens l cls esc acc = (acc + count_groups l cls esc)%N.
 Proof.
-  induction l as [|c r IH]; intros esc acc Hs; [cbn; lia|].
+  induction l as [|c r IH]; intros cls esc acc Hs; [cbn; lia|].
   cbn [count_parens count_groups]. destruct esc.
   { cbn [scan] in Hs. apply andb_true_iff in Hs. apply IH. apply Hs. }
   cbn [scan] in Hs. unfold c_bs, c_lb, c_rb, c_lp, g_backslash, g_lparen, g_lbracket, g_rbracket in *.
   destruct (c =? 92)%N eqn:Ebs; [apply IH; exact Hs|].
-  apply andb_true_iff in Hs. destruct Hs as [Hs Hr]. apply andb_true_iff in Hs. destruct Hs as [Hp Hl].
-  destruct (c =? 91)%N eqn:Elb; [apply N.eqb_eq in Elb; subst c; discriminate Hp|].
-  destruct (c =? 93)%N eqn:Erb; [apply IH; exact Hr|].
-  destruct (c =? 40)%N eqn:Elp; cbn [andb negb]; [|apply IH; exact Hr].
+  destruct cls.
+  { destruct (N.eqb_spec c 93) as [->|Hrb]; [cbn [N.eqb Pos.eqb negb] in *; apply (IH _ false); exact Hs|].
+    cbn [negb] in Hs. destruct (c =? 91)%N eqn:Elb; [apply (IH _ false); exact Hs|].
+    cbn [negb andb]. rewrite andb_false_r. apply (IH _ false); exact Hs. }
+  destruct (c =? 91)%N eqn:Elb; [apply (IH _ false); exact Hs|].
+  apply andb_true_iff in Hs. destruct Hs as [Hl Hr].
+  destruct (c =? 93)%N eqn:Erb; [apply (IH _ false); exact Hr|].
+  destruct (c =? 40)%N eqn:Elp; cbn [andb negb]; [|apply (IH _ false); exact Hr].
   apply N.eqb_eq in Elp. subst c.
   assert (E : (negb (is c_q (nth_error r 0)) ||
                (is c_lt (nth_error r 1) && negb (is c_eq (nth_error r 2)) && negb (is c_bang (nth_error r 2))))%bool
@@ -853,7 +1035,7 @@ Proof.
     destruct (c2 =? 60)%N eqn:E2; cbn [andb] in *; [|reflexivity].
     destruct r' as [|x r'']; [discriminate Hl|]. cbn [nth_error]. unfold is_eq_or_bang, g_equals, g_bang in Hl.
     apply orb_true_iff in Hl. destruct Hl as [Hl|Hl]; rewrite Hl; cbn [negb andb]; [reflexivity|apply andb_false_r]. }
-  rewrite E. destruct (starts_with g_question r); cbn [negb]; rewrite (IH false _ Hr); lia.
+  rewrite E. destruct (starts_with g_question r); cbn [negb]; rewrite (IH false false _ Hr); lia.
 Qed.
 
 Section KnotSim.
@@ -874,21 +1056,21 @@ Proof. start assertion. unfold sp_assertion, sp_group_body, quantifiable, is_eq_
 Lemma atom_sim np s l : disj_sim true np -> at_ true np s l -> frag true l -> assertion_prefix l = false ->
   SimR (Post true np s) (atom disj s) (sp_atom true np sdisj l).
 Proof.
-  start atom. unfold consume_character_class, uncapturing_group, capturing_group,
+  start atom. unfold uncapturing_group, capturing_group,
     consume_group_specifier, eat_group_name, bind. prim.
   unfold sp_atom, sp_group_body. go.
 Qed.
 #[local] Hint Resolve atom_sim : sim.
 
-Lemma scan_c u l : scan u false l = true -> scan u false (99 :: l) = true.
+Lemma scan_c u l : scan u false false l = true -> scan u false false (99 :: l) = true.
 Proof.
-  intros H. cbn [scan N.eqb Pos.eqb g_backslash]. rewrite H. unfold plain_char, local_ok.
-  cbn [N.eqb Pos.eqb g_lbracket g_lbrace g_lparen andb negb]. destruct l as [|? [|? ?]]; reflexivity.
+  intros H. cbn [scan N.eqb Pos.eqb g_backslash g_lbracket]. rewrite H. unfold local_ok.
+  cbn [N.eqb Pos.eqb g_lbrace g_lparen andb negb]. destruct l as [|? [|? ?]]; reflexivity.
 Qed.
 Lemma extended_atom_sim np s l : disj_sim false np -> at_ false np s l -> frag false l -> assertion_prefix l = false ->
   SimR (Post false np s) (extended_atom disj s) (sp_atom false np sdisj l).
 Proof.
-  start extended_atom. unfold consume_character_class, uncapturing_group, capturing_group,
+  start extended_atom. unfold uncapturing_group, capturing_group,
     consume_group_specifier, eat_group_name, bind. prim.
   unfold sp_atom, sp_group_body, extended_pattern_character, bs_c. go.
   apply scan_c. assumption.
@@ -926,7 +1108,7 @@ Lemma consume_pattern_sim u s l : skipn (pos s) (units (rd s)) = l -> strict s =
   SimR (fun _ t l' => l' = [] /\ gnames t = []) (consume_pattern s) (sp_pattern u l).
 Proof.
   intros Hl H1 H2 H3 Hf. unfold consume_pattern, count_capturing_parens. rewrite Hl.
-  rewrite (count_parens_groups u l false 0 Hf). rewrite N.add_0_l.
+  rewrite (count_parens_groups u l false false 0 Hf). rewrite N.add_0_l.
   set (np := count_groups l false false).
   set (s' := s <| ncap := np |> <| gnames := [] |> <| brnames := [] |>).
   assert (Ha : at_ u np s' l) by (destruct s as [[us i] ? ? ? ? ? ? ? ? ? ? ? ? ?]; unfold pos in *; cbn in *; repeat split; assumption).
@@ -940,7 +1122,7 @@ Definition outcome_agrees {A B} (r : R A) (x : SR B) : Prop :=
   | Ok _ _, SOk _ _ => True | SyntaxErr _ _, SErr => True | OutOfFuel, SFuel => True | _, _ => False end.
 
 (* the fragment condition is on the units the validator reads (code points with u, UTF-16 code units without) *)
-Theorem validate_pattern_sim st src u : scan u false (visible_units src u) = true ->
+Theorem validate_pattern_sim st src u : scan u false false (visible_units src u) = true ->
   outcome_agrees (validate_pattern st src u) (sp_pattern u (visible_units src u)).
 Proof.
   intros Hf. unfold validate_pattern, bind.
